@@ -287,6 +287,8 @@ def library(draw, lang=None, max_decls=8, with_python=None, with_lua=None, featu
             kinds.append("classpair")
         if "class" in feats and "template" in feats:
             kinds.append("ctemplate")
+        if "class" in feats:
+            kinds.append("derived")
         k = draw(st.sampled_from(kinds))
         if i == must_pos and must == "enummember" and "class" in kinds and "enum" in kinds:
             # a class with a writable data member of an enumeration type declared before it
@@ -304,6 +306,29 @@ def library(draw, lang=None, max_decls=8, with_python=None, with_lua=None, featu
         elif k == "class":
             enums_so_far = [d["name"] for d in lib["decls"] if d["kind"] == "enum" and not d.get("scoped")]
             lib["decls"].append(draw(class_decl(lang, names, enums_so_far, force_member=("int" if i == must_pos else None))))
+        elif k == "derived":
+            # struct.rst "Inheritance ... Only single inheritance is supported" / classes.yaml Shape, Circle: a base class
+            # with a constructor and a method, a derived class with a constructor and possibly methods of its own
+            base = draw(class_decl(lang, names))
+            if not base["ctors"]:
+                base["ctors"].append(dict(kind="ctor", name=base["name"], rtype=None, params=[], rattrs="", py=True, lua=True,
+                                          options={}, format={}, extra={}))
+            base["ctors"] = base["ctors"][:1]
+            base["ctors"][0]["format"] = {}
+            der = draw(class_decl(lang, names))
+            der["ctors"] = [dict(kind="ctor", name=der["name"], rtype=None, params=[], rattrs="", py=True, lua=True,
+                                 options={}, format={}, extra={})]
+            der["members"] = []
+            if draw(st.booleans()):
+                der["methods"] = []          # classes.yaml Circle: constructors only
+            der["methods"] = [m_ for m_ in der["methods"] if not (m_.get("extra") or {}).get("return_this")]
+            # (a method of the derived class that hides a base method of another signature cannot become a Fortran
+            #  type-bound procedure of the extended type: the names are kept apart)
+            for m_ in der["methods"]:
+                m_["name"] = m_["name"] + "d"
+            der["base"] = base["name"]
+            lib["decls"].append(base)
+            lib["decls"].append(der)
         elif k == "ctemplate":
             # templates.rst / templates.yaml: a class template with its instantiations
             insts = draw(st.lists(st.sampled_from(["int", "double", "long"]), min_size=1, max_size=2, unique=True))
@@ -467,7 +492,7 @@ def _decl_yaml(node, lib):
             inner.append(_func_yaml(m, lib))
         for e in node.get("inner", []):
             inner.append(_decl_yaml(e, lib))
-        d = {"decl": "class " + node["name"]}
+        d = {"decl": "class " + node["name"] + ((" : public " + node["base"]) if node.get("base") else "")}
         if inner:
             d["declarations"] = inner
     elif k == "namespace":
@@ -575,7 +600,7 @@ def sample(strategy, seed_value, n):
 
 
 STRATA = [None, "class", "namespace", "deepns", "overload", "default", "template", "generic", "enum", "struct", "classpair",
-          "ctemplate", "enummember"]
+          "ctemplate", "enummember", "derived"]
 
 
 def sample_models(seed_value, n, **kw):
@@ -620,7 +645,7 @@ def header(lib):
             elif k == "struct":
                 out.append(indent + struct_text(n))
             elif k == "class":
-                out.append(indent + "class %s {\n%spublic:" % (n["name"], indent))
+                out.append(indent + "class %s%s {\n%spublic:" % (n["name"], (" : public " + n["base"]) if n.get("base") else "", indent))
                 for c in n["ctors"]:
                     out.append(indent + "    %s(%s);" % (n["name"], ", ".join(
                         p["ctype"] + ((" = " + p["default"]) if p.get("default") is not None else "") for p in c["params"])))
